@@ -744,8 +744,8 @@ def run_refine(ctx, inp, res):
     rec = Recorder(ls, inp["schedule"], rf)
     orig_cb = ls.FitFunctions.compute_bounds
 
-    def cb(self, bounds, params, groups=None):
-        out = orig_cb(self, bounds, params, groups)
+    def cb(self, bounds, params, *args, **kwargs):           # extra parameters are passed through
+        out = orig_cb(self, bounds, params, *args, **kwargs)
         rec.events.append(("cb", dict(params=np.array(params, dtype=float).copy(), bounds=np.array(out).copy())))
         return out
     exc = None
